@@ -38,8 +38,12 @@ def bases(tier, seed):
 
 
 def run(tier, seed):
+    from checks import tracebase
+    bs = bases(tier, seed)
+    # (a) the multi-season runs themselves, traced: at every season start the state must be back at its initial values (Trace!Reset clauses)
+    rc1 = tracebase.trace_check(PROP, tier, seed, bs if tier == "quick" else bs[:60], [])
     jobs, pairs = [], []
-    for sc in bases(tier, seed):
+    for sc in bs:
         a = len(jobs)
         jobs.append({"kind": "plain", "scenario": sc})
         y0 = int(sc["start"][:4])
@@ -55,9 +59,10 @@ def run(tier, seed):
             jobs.append({"kind": "plain", "scenario": b})
             pairs.append({"a": a, "b": len(jobs) - 1, "rule": "seasonOffset", "label": {"crop": sc["crop"]["name"], "irr": (sc.get("irr") or {}).get("method", 0), "k": k,
                                                                                        "extras": [x for x in ("field", "gw") if sc.get(x)]}, "scenario": sc})
-    return equivbase.equiv_check(PROP, tier, seed, jobs, pairs, mcs=[("MC_Clock1.tla", "MC_ClockQ.cfg" if tier == "quick" else "MC_Clock1.cfg", 1800)],
-                                 rule_text="C08: season k of a multi-season run vs a fresh single-season run started on that season's planting date "
-                                           "(alignment by date, Equiv rule seasonOffset); crops converted with SwitchGDD are excluded by design")
+    rc2 = equivbase.equiv_check(PROP, tier, seed, jobs, pairs, mcs=[("MC_Clock1.tla", "MC_ClockQ.cfg" if tier == "quick" else "MC_Clock1.cfg", 1800)],
+                                rule_text="C08: season k of a multi-season run vs a fresh single-season run started on that season's planting date "
+                                          "(alignment by date, Equiv rule seasonOffset); crops converted with SwitchGDD are excluded by design", merge=True)
+    return 1 if (rc1 or rc2) else 0
 
 
 def replay(path):
